@@ -1,4 +1,10 @@
 """C08 happiness value == maximum matching, independent of iteration order."""
+META = {
+    "level": 'exploration',
+    "technique": 'runtime differential oracle: servers_of_happiness() vs independent Kuhn maximum matching over enumerated and random relations, re-run under permuted insertion orders and element types',
+    "text": 'Every relation on up to 4x4 (thorough) share/server grids plus random relations up to 30x30, each evaluated in several dict/set insertion orders and with bytes/object server ids.',
+    "note": "Trusts the matching model; PYTHONHASHSEED fixed so order permutations are the harness's own.",
+}
 import itertools
 from vf import env  # noqa
 from vf.models import happiness_of_sharemap
